@@ -555,27 +555,27 @@ def ioCont (inst : IOInst) (argv : List Arg) (sp : Span) (bnd : Option (Val × V
   | .fopen => (match argv with
       | [.strict p, .strict (.int m)] => worldArg (.fopen sp p m)
       | _ => bottom)
-  | .fclose => (match fid with | some f => worldArg (.fclose f) | none => bottom)
-  | .fread => (match fid, intArg 1 with | some f, some n => worldArg (.fread f n) | _, _ => bottom)
+  | .fclose => (match fid with | some f => worldArg (.fclose sp f) | none => bottom)
+  | .fread => (match fid, intArg 1 with | some f, some n => worldArg (.fread sp f n) | _, _ => bottom)
   | .fwrite => (match fid, argv with
-      | some f, [_, Arg.strict (Val.bytes b)] => worldArg (.fwrite f b) | _, _ => bottom)
+      | some f, [_, Arg.strict (Val.bytes b)] => worldArg (.fwrite sp f b) | _, _ => bottom)
   | .fseek =>
     match fid with
     | none => bottom
     | some f =>
       match argv with
-      | [_] => worldArg (.ftell f)
-      | [_, .strict (.int off)] => worldArg (.fseek f off 0)
+      | [_] => worldArg (.ftell sp f)
+      | [_, .strict (.int off)] => worldArg (.fseek sp f off 0)
       | [_, .strict (.int wh), .strict (.int off)] =>
-        worldArg (.fseek f off (if encodeNumber wh = [7, 0, 5, 2] then 1 else 0))
+        worldArg (.fseek sp f off (if encodeNumber wh = [7, 0, 5, 2] then 1 else 0))
       | _ => bottom
   | .ftrunc =>
     match fid with
     | none => bottom
     | some f =>
       match argv with
-      | [_] => worldArg (.ftrunc f none)
-      | [_, .strict (.int n)] => worldArg (.ftrunc f (some n))
+      | [_] => worldArg (.ftrunc sp f none)
+      | [_, .strict (.int n)] => worldArg (.ftrunc sp f (some n))
       | _ => bottom
   | .bind =>
     match bnd with
